@@ -45,3 +45,34 @@ pub fn parse_dir<P: AsRef<std::path::Path>>(
 
     Ok(result)
 }
+
+/// verification hook: run the private scanner to EOF and return every token,
+/// the first error (if any) and the line table
+#[cfg(gosyn_verif)]
+#[allow(clippy::type_complexity)]
+pub fn verif_scan(
+    source: &str,
+) -> (Vec<(usize, token::Token)>, Option<anyhow::Error>, Vec<usize>) {
+    let mut scan = scanner::Scanner::from(source);
+    let mut toks = vec![];
+    let err = loop {
+        match scan.next_token() {
+            Ok(Some(pos_tok)) => toks.push(pos_tok),
+            Ok(None) => break None,
+            Err(err) => break Some(err),
+        }
+    };
+    (toks, err, scan.verif_lines())
+}
+
+/// verification hook: the scanner's own character classes
+/// (is_letter, is_unicode_digit, char::is_whitespace)
+#[cfg(gosyn_verif)]
+pub fn verif_char_class(c: char) -> (bool, bool, bool) {
+    scanner::verif_char_class(c)
+}
+
+/// verification hook: number of byte slices handed to `from_utf8_unchecked`
+/// that were not valid UTF-8 (observed, never acted upon)
+#[cfg(gosyn_verif)]
+pub use scanner::VERIF_BAD_UTF8;
